@@ -295,7 +295,7 @@ def tlc(spec, cfg=None, workers=NCPU, timeout=1200, env=None, pure=False, libs=N
         md = tempfile.mkdtemp(prefix=os.path.basename(spec)[:-4] + "-", dir=os.path.join(BUILD, "tlc"))
     cmd = ["java", "-Xss512m", "-Xmx" + heap, "-XX:+UseParallelGC",
            "-DTLA-Library=" + ":".join(lib), "-cp", TLACP, "tlc2.TLC",
-           "-workers", str(workers), "-metadir", md, "-config", cfg]
+           "-workers", str(workers), "-metadir", md, "-noGenerateSpecTE", "-config", cfg]
     if simulate:
         cmd += ["-simulate", "num=%d" % simulate]
     if depth:
